@@ -77,6 +77,78 @@ theorem c03_registration_table_agrees :
           (permitted (some []) t2 == r.2.2.2.2.2.2)) = true := by
   refine ⟨_, rfl, by decide +kernel, by decide +kernel⟩
 
+/-- **A requested name is resolved exactly as the model resolves it, on every entry point.**  The real code is run on
+    every pair (spelling the tool is registered under, spelling it is requested under) of 11 look-alike spellings of one
+    name - other case, trailing / leading blank, full-width first letter, composed / decomposed accent, qualified
+    `functions.<name>`, `-` for `_` (121 rows, regenerated each run).  On an unrestricted engine the body ran exactly
+    when the model's dictionary lookup (`Registry.lookup`: key equality, nothing folded, trimmed or normalised) finds
+    the tool: through `execute_tool_call` and the tool loop under the requested string itself, through `metabolize`
+    (forced, and auto with the recorded detection) under the identifier Python's parser reads in the expression.  And
+    with the tool outside the ceiling no spelling of its name made it run on any entry point. -/
+theorem c03_name_resolution_table_agrees :
+    ∃ rows, nameTable = some rows ∧ rows.length = 121 ∧
+      rows.all (fun r =>
+        let t : Tool := ⟨1, some [2], none, false⟩
+        let s : St := { reg := [(r.reg, t)] }
+        let ran := fun (x : St) => x.events.map (·.tool) == [t]
+        (ran (executeToolCall ⟨true, true⟩ s r.req []).1 == r.callRan) &&
+        (ran (metabolize ⟨true, true⟩ s .oxidative r.parsed true []).1 == r.metRan) &&
+        (ran (metabolize ⟨true, true⟩ s (if r.autoOx then .oxidative else .otherPathway false) r.parsed true []).1
+          == r.autoRan) &&
+        (ran (toolLoop ⟨true, true⟩ 10 true s [⟨[], [(r.req, [])]⟩, ⟨[], []⟩]).1 == r.loopRan) &&
+        !r.deniedRan) = true := by
+  refine ⟨_, rfl, by decide +kernel, by decide +kernel⟩
+
+/-- the lookup is by the requested spelling itself: the tool it finds is registered under exactly that key -/
+theorem c03_lookup_is_exact (r : Registry) (n : String) (t : Tool) (h : r.lookup n = some t) : (n, t) ∈ r := by
+  unfold Registry.lookup at h
+  split at h
+  · rename_i p hp
+    have h1 := List.find?_some hp
+    have h2 := List.mem_of_find?_eq_some hp
+    simp only [beq_iff_eq] at h1
+    cases p with
+    | mk a b =>
+      simp only [Option.some.injEq] at h
+      subst h
+      simp only at h1
+      subst h1
+      exact h2
+  · cases h
+
+/-- **A request runs nothing that is registered under another spelling**: whatever else the registry holds - the same
+    name in another case, padded, normalised differently - a request for `n` that runs a tool runs the one registered
+    under exactly `n` (and that one was vetted: `c03_vetted_is_executed_*`); if `n` itself is not a key, nothing runs,
+    on any entry point. -/
+theorem c03_other_spellings_are_other_names (s : St) (n : String) (argsOk : Bool) (ops : List RegOp)
+    (hn : ∀ t, (n, t) ∉ s.reg) :
+    (executeToolCall guards s n ops).1.events = s.events ∧
+    (metabolize guards s .oxidative (.name n) argsOk ops).1.events = s.events ∧
+    ∀ k auto, (toolLoop guards k auto s [⟨[], [(n, ops)]⟩]).1.events = s.events := by
+  have hl : s.reg.lookup n = none := by
+    cases h : s.reg.lookup n with
+    | none => rfl
+    | some t => exact absurd (c03_lookup_is_exact s.reg n t h) (hn t)
+  refine ⟨by simp [executeToolCall, hl], by simp [metabolize, oxidative, hl], ?_⟩
+  intro k auto
+  cases k with
+  | zero => simp [toolLoop]
+  | succ k =>
+    cases auto
+    · simp [toolLoop, during]
+    · cases k <;> simp [toolLoop, loopRound, executeToolCall, hl, during, Registry.applyAll]
+
+/-- a registry that holds the name in two other spellings, one of them outside the ceiling: the request for a third
+    spelling runs nothing; the request for the permitted spelling runs that tool only -/
+example :
+    let s : St := { reg := [("fetch", ⟨1, some [2], none, false⟩), ("Fetch", ⟨2, some [], none, false⟩)], allowed := some [] }
+    (∀ t, ("FETCH", t) ∉ s.reg) ∧
+    (run ⟨true, true⟩ s [.call "FETCH" [], .metabolize .oxidative (.name "FETCH") true [], .call "Fetch" [],
+      .call "fetch" []]).events.map (·.tool.body) = [2] := by
+  refine ⟨?_, by decide⟩
+  intro t h
+  simp at h
+
 /-- **Least privilege, all entry points, all histories** (from any start state whose log is clean; ceiling
     re-assignment, in-flight registration and provider-side registration included).  Every tool body that ever ran
     had its required capabilities (as declared by the object that was vetted and run) inside the ceiling in force. -/
